@@ -378,6 +378,8 @@ def run_c17(run: core.Run, n: int) -> None:
                 "~=1.0.po\u017ft1", "~=1.0.prev\u0131ew1", ">=1.0.po\u017ft1", "==1.0.po\u017ft1", "~=1.0.POST1", "~=1.0.Post1||<empty>",
                 "==1.0.\u0131*", "~=1.\u0660", "===1.0||>=2",
                 ">=1." + "9" * 5000, "==1." + "9" * 4300 + ".*",       # known finding G7: CPython's int <-> str digit limit
+                # more `||` alternatives than the interpreter's recursion limit (seed C17i: a recursive fold), valid and not
+                "||".join(f">={i}.5" for i in range(1200, 0, -1)), "||".join(f"!={i}" for i in range(1100)) + "||>=x",
                 "%3E%3D1.0", ">=1.0%s", ">=%(min)s,<%(max)s", "100%", ">=1.0||<2%s", "{}", ">=1.0{0}", ">=1\x00"]
     for i in range(n + len(specials)):
         if i < len(specials):
